@@ -735,7 +735,9 @@ def occupation_pattern(draw, batch=False):
         occ = [draw(st.integers(0, 24))]
     elif style == "many":
         d = draw(st.integers(1, 8))
-        occ = _spread(draw, d, draw(st.integers(1, 10)))
+        # up to 14 photons: >= 6 distinct edges, i.e. reduced matrices larger than 10 x 10,
+        # switch on the rescaling branch of the power-trace hafnians
+        occ = _spread(draw, d, draw(st.sampled_from([1, 2, 3, 4, 5, 6, 7, 8, 9, 10, 12, 13, 14])))
     elif style == "pair":
         occ = [draw(st.integers(12, 20)), draw(st.integers(12, 20))]
         if draw(st.booleans()):
